@@ -257,6 +257,12 @@ func (x *fnExec) havocLoop(fr *frame, li *loopInfo, st *State) {
 				stores = append(stores, t)
 			case *ssa.MapUpdate:
 				eff.keys[mapPrefix(t.Map.Type().Underlying().(*types.Map))] = true
+			case *ssa.Next:
+				if rg, ok := t.Iter.(*ssa.Range); ok {
+					if mt, isMap := rg.X.Type().Underlying().(*types.Map); isMap {
+						eff.keys["X:visited:"+typeName(mt)] = true
+					}
+				}
 			case ssa.CallInstruction:
 				if _, isGo := in.(*ssa.Go); isGo {
 					continue
